@@ -139,7 +139,7 @@ def run(ctx):
                 if not phic.startswith("incomplete"):
                     stats["CFGs meeting SingleDef and PhiComplete"] += 1
             else:
-                versioned = [t for t in hyp.split()[1:] if "." in t]
+                versioned = [t for t in hyp.split(" | ")[0].split()[1:] if "." in t]
                 stats["CFGs with a variable assigned by several substitutions (signals/components: outside the path theorem)"] += 1
                 if versioned:
                     # a versioned (SSA) local with two definitions: clause (a) of C14 is broken
